@@ -9,6 +9,7 @@ import (
 	"time"
 
 	"github.com/samaritan-proxy/samaritan/host"
+	pbhc "github.com/samaritan-proxy/samaritan/pb/config/hc"
 	"github.com/samaritan-proxy/samaritan/pb/config/service"
 	"github.com/samaritan-proxy/samaritan/verifrt/sched"
 	"github.com/samaritan-proxy/samaritan/verifrt/vnet"
@@ -143,7 +144,7 @@ func c06histBody(depth int) func() {
 		policy := []service.LoadBalancePolicy{service.LoadBalancePolicy_ROUND_ROBIN, service.LoadBalancePolicy_RANDOM, service.LoadBalancePolicy_LEAST_CONNECTION}[sched.Choose(sched.ClsInput, 3, "policy")]
 		w := c06setup(policy, []string{"a", "b", "c"})
 		var hist []string
-		ops := []string{"add a", "add b", "add c", "remove a", "remove b", "remove c", "remove-as-other-type a", "replace {a}", "replace {b,c}", "replace {a,b,c}", "remove a,b", "remove b,a", "unhealthy a", "unhealthy b", "unhealthy c", "healthy a", "healthy b", "connect", "disconnect", "late-unhealthy a", "late-healthy a", "re-add a", "connect-first-dial-fails", "re-add-as-other-type a", "config-update"}
+		ops := []string{"add a", "add b", "add c", "remove a", "remove b", "remove c", "remove-as-other-type a", "replace {a}", "replace {b,c}", "replace {a,b,c}", "remove a,b", "remove b,a", "unhealthy a", "unhealthy b", "unhealthy c", "healthy a", "healthy b", "connect", "disconnect", "late-unhealthy a", "late-healthy a", "re-add a", "connect-first-dial-fails", "re-add-as-other-type a", "config-update", "config-update-rejected"}
 		// round robin: while neither membership nor health changes, any len(usable) consecutive selections visit every
 		// usable host once (configuration updates that keep the policy do not disturb the rotation)
 		var rrWindow []string
@@ -154,10 +155,27 @@ func c06histBody(depth int) func() {
 			op := ops[sched.Choose(sched.ClsInput, len(ops), "op")]
 			hist = append(hist, op)
 			f := strings.Fields(op)
-			if f[0] != "connect" && f[0] != "disconnect" && f[0] != "config-update" {
+			if f[0] != "connect" && f[0] != "disconnect" && f[0] != "config-update" && f[0] != "config-update-rejected" {
 				rrWindow = nil
 			}
 			switch f[0] {
+			case "config-update-rejected":
+				// an update that changes the balancing policy and carries a health check the monitor rejects (the send
+				// string of its checker is not a quoted string): it is refused as a whole, the service keeps reporting
+				// and using the policy it had
+				other := service.LoadBalancePolicy_RANDOM
+				if policy == service.LoadBalancePolicy_RANDOM {
+					other = service.LoadBalancePolicy_ROUND_ROBIN
+				}
+				cfg := vfTCPConfig(other, 0)
+				cfg.HealthCheck = &pbhc.HealthCheck{Interval: 10 * time.Second, Timeout: time.Second, RiseThreshold: 1, FallThreshold: 1,
+					Checker: &pbhc.HealthCheck_AtcpChecker{AtcpChecker: &pbhc.ATCPChecker{Action: []*pbhc.ATCPChecker_Action{{Send: []byte("hello"), Expect: []byte(`"x"`)}}}}}
+				if err := w.p.OnSvcConfigUpdate(cfg); err == nil {
+					sched.Fail("harness-config-update-not-rejected", fmt.Sprintf("%s history %v", policy, hist))
+				}
+				if got := w.p.Config().GetLbPolicy(); got != policy {
+					sched.Fail("reported-policy-changed-by-rejected-update", fmt.Sprintf("%s history %v: the service now reports %s", policy, hist, got))
+				}
 			case "config-update":
 				// a configuration update that keeps the balancing policy (another idle timeout)
 				cfg := vfTCPConfig(policy, 0)
